@@ -709,7 +709,10 @@ static Family cookie_family(const std::string &tier)
   f.req_repeat = true;
   f.replies    = { RK_CK_NONE, RK_CK_VALID, RK_CK_VALID2, RK_CK_WRONGCLIENT, RK_BADCOOKIE, RK_BADCOOKIE_BARE, RK_TC };
   f.advances   = { 119000, 121000, 301000, 86401000 };
-  f.evmask     = EVBIT(EV_REQ) | EVBIT(EV_REPLY) | EVBIT(EV_TIMER) | EVBIT(EV_ADVANCE) | EVBIT(EV_SRCADDR) | EVBIT(EV_IO);
+  // the cookie is bound to the local address the library learns through getsockname(): that call may fail
+  f.faults     = { FS_GETSOCKNAME };
+  f.max_dev    = 1;
+  f.evmask     = EVBIT(EV_REQ) | EVBIT(EV_REPLY) | EVBIT(EV_TIMER) | EVBIT(EV_ADVANCE) | EVBIT(EV_SRCADDR) | EVBIT(EV_IO) | EVBIT(EV_FAULT);
   f.max_req    = tier == "quick" ? 3 : 4;
   f.max_adv    = 2;
   f.max_depth  = tier == "quick" ? 6 : 8;
